@@ -16,6 +16,12 @@ type Check struct {
 	Timeout func(tier string) int
 	// CrashIsViolation: a Go fatal error / unrecovered panic in avfs frames inside a worker refutes the property.
 	CrashIsViolation bool
+	// Env returns extra environment variables for the worker of a shard (e.g. GORACE).
+	Env func(shard int) []string
+	// Pre runs in the driver before the workers start.
+	Pre func(tier string)
+	// Post runs in the driver after all workers ended (e.g. to collect race-detector logs).
+	Post func(tier string, total *rt.Report)
 }
 
 // All is the registry.
